@@ -116,7 +116,7 @@ enum Sc {
     },
 }
 
-const NEW_BASE: u32 = 1_000_000;
+const NEW_BASE: u32 = 1 << 30;
 
 /// Probe gene generator: hands out serials >= 10^6, logs every sample, and
 /// consumes one word of the stream it is handed like a real generator would.
@@ -323,6 +323,10 @@ fn check_umad(
     obs: &mut Obs,
 ) -> Vec<Violation> {
     let mut rng = spec.build();
+    if len > 200_000 {
+        rng.set_cap(8 * len as u64 + 1000);
+        obs.hit("probe.umad-on-more-than-10^6-genes");
+    }
     let site = format!("Umad::{ctor:?}/{genome:?}");
     let close_mask = if genome == UmadGenome::Plushy && len > 0 { close_mask & ((1u64 << len.min(63)) - 1) } else { 0 };
     let is_close = |i: usize| i < 63 && close_mask >> i & 1 == 1;
@@ -766,6 +770,13 @@ impl Check for C11 {
             let len = [(1usize << 24) + 1, (1 << 24) + 3, (1 << 25) + 2, (1 << 24) + 1][(k % 4) as usize];
             let container = [FlipContainer::VecBool, FlipContainer::Bits][((k / 4) % 2) as usize];
             return Sc::Flip { rate_bits: None, container, len, rng: RngSpec::seeded(rng.seed) };
+        }
+        if run % 1_000_000 == 300_007 {
+            // children of more than 2^21 genes (sizes fixed by the run index): nothing may be capped on the way
+            let k = run / 1_000_000;
+            let genome = [UmadGenome::Plushy, UmadGenome::VectorU32, UmadGenome::Plushy, UmadGenome::Segmented][(k % 4) as usize];
+            let (add, del, len) = [(1.0, 0.0, 1_100_000usize), (1.0, 0.0, 2_200_000), (0.0, 0.0, 2_200_000), (0.5, 0.0, 1_500_000)][((k / 4) % 4) as usize];
+            return Sc::Umad { ctor: UmadCtor::New, add, empty: 0.0, del, genome, len, close_mask: g.next_u64(), rng: RngSpec::seeded(rng.seed) };
         }
         if g.coin() {
             let rate_bits = if g.chance(1, 3) {
